@@ -229,7 +229,7 @@ CHECKS["C01"] = {
 
 CHECKS["C12"] = {
     "pkgs": ["cacheh", "subscribeh", "pipelineh"],
-    "quick": {"wall_s": 66, "race_wall_s": 24, "race_max_runs": 1200},
+    "quick": {"wall_s": 54, "race_wall_s": 21, "race_max_runs": 1200},
     "thorough": {"wall_s": 600, "race_wall_s": 180, "race_max_runs": 1800},
     "rule": "Hostile-peer fault: protobuf-valid but adversarial messages (empty and root paths, paths equal to or under meta with right and "
             "wrong value types, nil prefix / nil path, missing and empty values, non-scalar values, deprecated encodings, atomic containers "
